@@ -72,6 +72,42 @@ func scribble(r *Rec) {
 	for i := range r.B {
 		r.B[i] ^= 0xff
 	}
+	scribbleGrp := func(g *Grp) {
+		for i := range g.Tags {
+			g.Tags[i] += "~"
+		}
+		for k := range g.Attrs {
+			g.Attrs[k] += 1000
+		}
+		if g.Attrs != nil {
+			g.Attrs["scribbled"] = 1
+		}
+		if g.Cnt != nil {
+			*g.Cnt += 1000
+		}
+		for i := range g.Inner {
+			g.Inner[i].X += 1000
+		}
+	}
+	for i := range r.G {
+		scribbleGrp(&r.G[i])
+	}
+	for k, g := range r.H {
+		scribbleGrp(&g) // containers inside the copy are shared with the map's element
+		_ = k
+	}
+	for i := range r.J {
+		for j := range r.J[i] {
+			r.J[i][j] += 1000
+		}
+	}
+	if l, ok := r.I.([]interface{}); ok {
+		for _, x := range l {
+			if ll, ok := x.([]interface{}); ok && len(ll) > 0 {
+				ll[0] = "scribbled"
+			}
+		}
+	}
 }
 
 // C14 mutation events.
